@@ -109,9 +109,12 @@ class DataFrame(Entity, DataSet):
         if name is None:
             name = self._find_name_by_idx(index)
         column = np.array(column)
-        for i, rows in enumerate(self._h5group.group['data'][:]):
-            cell = column[i]
-            rows[name] = cell
+        # the whole column is converted before anything is written: a value
+        # that does not fit the column's type leaves the table as it was
+        data = self._h5group.group['data'][:]
+        for i in range(len(data)):
+            data[i][name] = column[i]
+        for i, rows in enumerate(data):
             self.write_rows(rows=[rows], index=[i])
 
     def read_columns(self, index=None, name=None, slc=None, group_by_cols=False):
